@@ -74,7 +74,7 @@ def wqOp (st : S) (ws : List String) : S × String :=
               | .remove | .readerUpdate _ true | .workerUpdate _ _ true =>
                 match s'.got with
                 | (_, some b) :: _ => s!"ok b={b}"
-                | (_, none) :: _ => if l == Label.remove then "eod" else "ok b=0"
+                | (_, none) :: _ => if l == Label.remove && s.rq.cnt == 0 then "eod" else "ok b=0"
                 | [] => "ok"
               | _ => "ok"
             ({ st with q := some s' }, s!"{r} | {dump s'}")
